@@ -61,7 +61,7 @@ def run(ctx):
     # programs ending in a shadowing / string / default-argument line first; bounded
     progs.sort(key=canon)
     rnd.shuffle(progs)
-    progs = progs[: (150 if quick else 1500)]
+    progs = progs[: (60 if quick else 1200)]
     laid = [layout(p) for p in progs]
     recs = []
     for i, (src, occ, spell) in enumerate(laid):
@@ -96,6 +96,7 @@ def run(ctx):
     shutil.rmtree(w, ignore_errors=True)
     shutil.rmtree(d, ignore_errors=True)
     judged = 0
+    rejected_originals = set()
     for (i, b, a), new_src, rr in zip(meta, renamed, after):
         src, occ, spell = laid[i]
         kindb = "function" if spell[b].startswith("f") else "result" if spell[b][0] in "rl" else "parameter-or-global"
@@ -104,6 +105,11 @@ def run(ctx):
         judged += 1
         b0, a0 = base[i], rr
         ok0, ok1 = bool(b0["compile"].get("ok")), bool(a0["compile"].get("ok"))
+        if not ok0:
+            # the derived programs are meant to be well-formed: one the compiler rejects is not judged
+            rejected_originals.add(i)
+            judged -= 1
+            continue
         tmpl = sorted({("fshadow" if " * 2" in l else "fdef" if ":=" in l else "lam" if "->" in l else "strlit" if '"' in l else "fclose" if l.startswith("f") else "other")
                        for l in src.split("\n") if spell[b] in l})
         sig_base = {"templates": tmpl, "binding": "shadowing" if sum(1 for x in spell.values() if x == spell[b]) > 1 else "unique"}
@@ -131,6 +137,9 @@ def run(ctx):
     ctx.set("rename_requests", queries)
     ctx.set("requests_without_edit", no_edit)
     ctx.set("renamed_programs_judged", judged)
+    ctx.set("original_programs_rejected_not_judged", len(rejected_originals))
+    if len(rejected_originals) * 5 > len(progs):
+        raise ToolError(f"{len(rejected_originals)} of {len(progs)} derived programs are rejected by the compiler: the templates are wrong")
     ctx.set("distinct_nontrivial", len(progs))
     ctx.set("rule", "distinct derived programs; every occurrence of every binding is one rename request")
     if judged < queries // 3:
